@@ -62,10 +62,61 @@ def gen_cases(c, methods_tla, cfg):
     return cases
 
 
+def sa_direction(c):
+    """C14: search-attribute names on the ASSEMBLED inbound / outbound servers follow the direction rules (Pipeline!SaWant)."""
+    out = os.path.join(c.scratch, "MethodsGen.tla")
+    rc, txt = c.go_test("proxy", HARNESS, "^TestVerifMethodsExport$", env={"VERIF_OUT": out}, timeout=300, name="methods")
+    if rc != 0 or not os.path.exists(out):
+        raise Broken("method export failed: " + txt[-1500:])
+    methods_tla = open(out).read()
+    cases = []
+
+    def on_case(line):
+        try:
+            d = json.loads(line)
+            if isinstance(d, str):
+                d = json.loads(d)
+            cases.append(d)
+        except ValueError:
+            pass
+    c.tlc("Pipeline", "PipelineCases", "cases_sa.cfg", workers=1, timeout=300, line_cb=on_case, files={"MethodsGen.tla": methods_tla}, name="cases-sa")
+    if len(cases) != 8:
+        raise Broken("search-attribute case enumeration failed (%d)" % len(cases))
+    cases.sort(key=lambda d: (d["transport"], d["side"], d["leg"]))
+    for i, d in enumerate(cases):
+        d["id"] = i + 1
+    inp = os.path.join(c.scratch, "sa-in.ndjson")
+    with open(inp, "w") as f:
+        for d in cases:
+            f.write(json.dumps(d) + "\n")
+    outp = os.path.join(c.scratch, "sa-out.ndjson")
+    rc, txt = c.go_test("proxy", HARNESS, "^TestVerifPipelineSA$", env={"VERIF_IN": inp, "VERIF_OUT": outp}, timeout=600, name="sadir")
+    if rc != 0 or not os.path.exists(outp):
+        raise Broken("search-attribute direction probe failed: " + txt[-1500:])
+    recs = [json.loads(l) for l in open(outp)]
+    if len(recs) != len(cases) or any(not r["ran"] for r in recs):
+        raise Broken("search-attribute direction probe did not run every case: %s" % json.dumps([r for r in recs if not r["ran"]][:1]))
+    ro = c.tlc("Pipeline", "PipelineObs", "obs.cfg", workers=1, timeout=600,
+               files={"trace.ndjson": "\n".join(json.dumps(r) for r in recs) + "\n", "MethodsGen.tla": methods_tla}, name="obs-sa")
+    t = open(ro.out).read()
+    m = re.search(r'<<\s*"OBS_VIOLATIONS",\s*(\{.*?\})\s*>>\s*\n<<\s*"OBS_TRACE_LEN"', t, re.S)
+    if not m or not ro.ok:
+        raise Broken("PipelineObs (sa) did not report: " + ro.error_text[-800:])
+    n = 0
+    for g in OBS_RE.finditer(m.group(1)):
+        r = recs[int(g.group(1)) - 1]
+        n += 1
+        cs = r["case"]
+        c.violation({"module": "Pipeline", "clause": "sadir", "side": cs["side"], "leg": cs["leg"], "transport": cs["transport"]},
+                    "search-attribute direction on the assembled %s server (%s, %s): keys %s" % (cs["side"], cs["leg"], cs["transport"], r["keys"]),
+                    {"kind": "sa-direction", "record": r})
+    return {"sa_direction_cases": len(recs), "sa_direction_violations": n}
+
+
 def run(c, a):
     c.assumptions += [
         "the local and remote clusters are generic fakes (grpc.Server with an UnknownServiceHandler on the real generated types)",
-        "TCP transport; the mux transport shares makeServerOptions (same interceptor chain) and is not exercised here",
+        "C15 runs every case on TCP and on a mux session (paired proxies over loopback); C16/C13 cases on TCP",
     ]
     out = os.path.join(c.scratch, "MethodsGen.tla")
     rc, txt = c.go_test("proxy", HARNESS, "^TestVerifMethodsExport$", env={"VERIF_OUT": out}, timeout=300, name="methods")
@@ -75,13 +126,23 @@ def run(c, a):
     cases = []
     if c.pid == "C15":
         cases = gen_cases(c, methods_tla, "cases_methods.cfg")
+        # the verdict for a method must not depend on what was called before: admin methods are called before AND after the
+        # workflow methods on the same server (same-named methods exist in both services)
+        admin = [x for x in cases if x["m"]["service"] == "admin"]
+        wf = [x for x in cases if x["m"]["service"] != "admin"]
+        again = []
+        for x in admin:
+            y = dict(x)
+            y["id"] = len(cases) + len(again) + 1
+            again.append(y)
+        cases = admin + wf + again
     else:
         cases = gen_cases(c, methods_tla, "cases_names.cfg")
     binpath = c.go_test_build("proxy", HARNESS, name="pipeline")
     # shard by (policy, mapping) groups so that every shard builds few cluster connections
     groups = {}
     for cs in cases:
-        groups.setdefault((cs["policy"], cs["mapping"], cs["side"]), []).append(cs)
+        groups.setdefault((cs["policy"], cs["mapping"], cs.get("transport", "tcp")), []).append(cs)
     files = []
     for i, k in enumerate(sorted(groups, key=str)):
         p = os.path.join(c.scratch, "pipe-in-%d.ndjson" % i)
@@ -116,7 +177,8 @@ def run(c, a):
         r = recs[ln - 1]
         cs = r["case"]
         nviol += 1
-        sig = {"module": "Pipeline", "clause": clause, "side": cs["side"], "service": cs["m"]["service"], "policy": cs["policy"]}
+        sig = {"module": "Pipeline", "clause": clause, "side": cs["side"], "service": cs["m"]["service"], "policy": cs["policy"],
+               "transport": cs.get("transport", "tcp")}
         key = json.dumps(sig, sort_keys=True)
         if key in seen_sig:
             continue
@@ -135,9 +197,10 @@ def run(c, a):
                     continue
                 for val in ("ns-allowed", "ns-forbidden", "ns-remote-ok", "ns-remote-bad"):
                     for bypass in (False, True):
-                        d = dict(o)
-                        d.update(mode="acl", value=val, bypass=bypass, id=len(acl) + 1)
-                        acl.append(d)
+                        for variant in (("", "tail") if "events" in o["path"] else ("",)):
+                            d = dict(o)
+                            d.update(mode="acl", value=val, bypass=bypass, variant=variant, id=len(acl) + 1)
+                            acl.append(d)
             orecs = p_schema.run_obligations(c, acl, "acl")
             viols = p_schema.judge(c, orecs, "acl")
             causes = {}
@@ -162,17 +225,67 @@ def run(c, a):
                 if n == 1:
                     c.violation({"module": "SchemaWalk", "clause": "changedelse"}, "translation changed something else: %s" % json.dumps(rec)[:400],
                                 {"kind": "obligation", "record": rec})
-            # start-up rejection of mappings that are not one-to-one
+            # chained one-to-one mappings (a->b, b->c): exactly one step, nothing lost
+            chain = []
+            for o in obligs:
+                if o["leaf"].startswith("ns"):
+                    for val in ("ns-a", "ns-b"):
+                        d = dict(o)
+                        d.update(mode="chain", value=val, id=len(chain) + 1)
+                        chain.append(d)
+                elif o["root"]["service"] == "admin":
+                    d = dict(o)
+                    d.update(mode="chain", id=len(chain) + 1)
+                    chain.append(d)
+            crecs = p_schema.run_obligations(c, chain, "chain")
+            nchain = 0
+            for ln, clause in p_schema.judge(c, crecs, "chain"):
+                if clause in ("chain", "changedelse", "error"):
+                    nchain += 1
+                    if nchain == 1:
+                        rec = crecs[ln - 1]
+                        c.violation({"module": "SchemaWalk", "clause": "chain", "leaf": rec["leaf"][:2]},
+                                    "chained mapping mistranslated: %s" % json.dumps(rec)[:400], {"kind": "obligation", "record": rec})
+            # start-up rejection of mapping lists that are not one-to-one: every list over 3 names of length <= 2 (+ part of 3)
+            lists = []
+
+            def on_list(line):
+                try:
+                    d = json.loads(line)
+                    if isinstance(d, str):
+                        d = json.loads(d)
+                    lists.append(d)
+                except ValueError:
+                    pass
+            c.tlc("Pipeline", "PipelineCases", "cases_maps.cfg", workers=1, timeout=300, line_cb=on_list,
+                  files={"MethodsGen.tla": methods_tla}, name="cases-maps")
+            if len(lists) < 80:
+                raise Broken("mapping-list enumeration failed (%d)" % len(lists))
+            inp = os.path.join(c.scratch, "maps-in.ndjson")
+            with open(inp, "w") as f:
+                for d in lists:
+                    f.write(json.dumps(d) + "\n")
             outp = os.path.join(c.scratch, "badmap.ndjson")
-            rc, txt = c.go_test("proxy", HARNESS, "^TestVerifPipelineBadMappings$", env={"VERIF_OUT": outp}, timeout=300, name="badmap")
+            rc, txt = c.go_test("proxy", HARNESS, "^TestVerifPipelineBadMappings$", env={"VERIF_IN": inp, "VERIF_OUT": outp}, timeout=600, name="badmap")
             if rc != 0 or not os.path.exists(outp):
                 raise Broken("bad-mapping probe failed: " + txt[-1500:])
             bm = [json.loads(l) for l in open(outp)]
-            for b in bm:
-                if b["onetoone"] == b["rejected"]:
-                    c.violation({"module": "Pipeline", "clause": "badmap", "name": b["name"]},
-                                "mapping list %s: one-to-one=%s rejected=%s" % (b["name"], b["onetoone"], b["rejected"]), {"kind": "badmap", "record": b})
-            extra.update({"path_obligations": len(obligs), "changedelse": n, "mapping_lists": bm})
+            ro2 = c.tlc("Pipeline", "PipelineObs", "obs.cfg", workers=1, timeout=600,
+                        files={"trace.ndjson": "\n".join(json.dumps(b) for b in bm) + "\n", "MethodsGen.tla": methods_tla}, name="obs-maps")
+            t2 = open(ro2.out).read()
+            m2 = re.search(r'<<\s*"OBS_VIOLATIONS",\s*(\{.*?\})\s*>>\s*\n<<\s*"OBS_TRACE_LEN"', t2, re.S)
+            if not m2 or not ro2.ok:
+                raise Broken("PipelineObs (maps) did not report: " + ro2.error_text[-800:])
+            nbm = 0
+            for g in OBS_RE.finditer(m2.group(1)):
+                b = bm[int(g.group(1)) - 1]
+                nbm += 1
+                if nbm == 1:
+                    c.violation({"module": "Pipeline", "clause": "badmap"}, "mapping list %s: rejected=%s" % (json.dumps(b["list"]), b["rejected"]),
+                                {"kind": "badmap", "record": b})
+            extra.update({"chain_obligations": len(chain), "chain_violations": nchain, "mapping_lists_tried": len(bm),
+                          "mapping_lists_rejected": sum(1 for b in bm if b["rejected"]), "badmap_violations": nbm})
+            extra.update({"path_obligations": len(obligs), "changedelse": n})
     denied = sum(1 for r in recs if r["status"] == "PermissionDenied")
     c.coverage.update({
         "cases": len(cases), "executed": len(recs), "denied": denied, "forwarded": sum(1 for r in recs if r["status"] == "OK"),
